@@ -248,8 +248,10 @@ def run(ctx):
                 r.fail('%s:%s:assert-%s' % (crate, b.name.replace(crate + '::', ''), kind), '%s:%s' % (b.file, line),
                        '%s: %s check can panic (slice/array indexing or division) — no structural discharge' % (b.name, kind))
     r.counts['classes'] = {k: v[0] for k, v in sorted(classes.items())}
-    want = {'lexeme-concat-unwrap': 40, 'locate-of-node-unwrap': 28, 'identifier-of-node-unwrap': 6, 'derive-adjacency-assert': 1110,
-            'refcell-borrow-in-with-closure': 3300}
+    # floors: about 60 % of the numbers counted on the pinned tree (45 / 31 / 7 / 1242 / 3752): low enough for helper extraction to
+    # fold several sites into one, high enough to notice a classifier that stopped matching
+    want = {'lexeme-concat-unwrap': 25, 'locate-of-node-unwrap': 18, 'identifier-of-node-unwrap': 4, 'derive-adjacency-assert': 800,
+            'refcell-borrow-in-with-closure': 2000}
     for k, v in want.items():
         r.floor('class:' + k, classes.get(k, [0])[0], v)
     r.notes.append('overflow asserts (arithmetic on in-text positions / event depth) and the null/misaligned-pointer checks debug MIR inserts are excluded by kind')
